@@ -367,7 +367,8 @@ func monotraceMain(args []string) int {
 		w.WriteByte('\n')
 	}
 	for i, d := range data {
-		tails := map[string][]byte{"text": bytes.Repeat([]byte("lorem ipsum dolor sit amet, \n"), 300), "nul": make([]byte, 8192)}
+		tails := map[string][]byte{"text": bytes.Repeat([]byte("lorem ipsum dolor sit amet, \n"), 300), "nul": make([]byte, 8192),
+			"nl": bytes.Repeat([]byte("\nsecond line of a line-oriented format\n"), 200), "dash": append([]byte("-WB_MC1.0\n"), make([]byte, 4096)...)}
 		rnd := make([]byte, 8192)
 		rng.Read(rnd)
 		tails["random"] = rnd
@@ -388,7 +389,7 @@ func monotraceMain(args []string) int {
 			}
 		}
 		if i < 4 {
-			rep.sample(map[string]any{"sample": names[i], "tails": []string{"text", "nul", "random"}, "limits": len(limits) + 1})
+			rep.sample(map[string]any{"sample": names[i], "tails": []string{"text", "nul", "random", "nl", "dash"}, "limits": len(limits) + 1})
 		}
 	}
 	w.Flush()
